@@ -208,7 +208,7 @@ PROPS['C02'] = {
     'min_nontrivial': [200, 2000],
     'require_classes': ['future_mt:waiter_parked_before_resolution', 'future_mt:waiter_lost_subscribe_race_to_ready', 'future_async_mt:waiter_parked_before_resolution',
                         'future_async_mt:waiter_lost_subscribe_race_to_ready'],
-    'single_thread_scenarios': ('frame_owned_parties',),
+    'single_thread_scenarios': ('frame_owned_parties', 'callback_awaiter_reuse'),
     'jobs': [
         J('mt_rel', 'c02.cpp', 'rel', [300000, 20000000], scenario='future_mt,future_async_mt', threads=6),
         J('mt_asan', 'c02.cpp', 'asan', [50000, 3000000], scenario='future_mt,future_async_mt', threads=6),
@@ -216,6 +216,8 @@ PROPS['C02'] = {
         J('mt_casan', 'c02.cpp', 'casan', [0, 1500000], scenario='future_mt,future_async_mt', threads=6, tiers=(T,)),
         J('owned_asan', 'c02.cpp', 'asan', [3000, 150000], scenario='frame_owned_parties', threads=1),
         J('owned_rel', 'c02.cpp', 'rel', [3000, 300000], scenario='frame_owned_parties', threads=1),
+        J('reuse_asan', 'c02.cpp', 'asan', [30000, 1000000], scenario='callback_awaiter_reuse', threads=1),
+        J('reuse_rel', 'c02.cpp', 'rel', [60000, 3000000], scenario='callback_awaiter_reuse', threads=1),
     ],
 }
 
